@@ -132,8 +132,10 @@ theorem relatedOut_local (db db' : DB) (src pred at_ limit : Nat) (scope : List 
     relatedOut db' src pred at_ limit scope sk = relatedOut db src pred at_ limit scope sk := by
   have hstep : outStep db' scope pred at_ limit sk = outStep db scope pred at_ limit sk := by
     funext s k; simp only [outStep, inScope, hd]
+  have hscope : (fun r : RefKey => inScope db' scope r.ds) = (fun r : RefKey => inScope db scope r.ds) := by
+    funext r; simp only [inScope, hd]
   unfold relatedOut
-  simp only [hr, hstep]
+  simp only [hr, hstep, hscope]
 
 /-- T-C06-3' (outgoing relationship queries are immutable): for every batch committed after `at`
 the outgoing query pinned to `at` — results and continuation, for every limit and every
